@@ -171,6 +171,8 @@ def run(ck, P):
                         continue
                     if any(a.get(x) is False for x in allocd):
                         continue      # an allocation failed on this path: outside the property's quantifier
+                    if any(e.kind == "call" and e.callee in ("__assert_fail", "abort", "exit", "_exit") for e in evs):
+                        continue      # the process aborts on this path (assert in the -UNDEBUG configuration)
                     last = path[-1][0]
                     if last != f.exit and not any(last == t and ev.block.id in f.natural_loop(t, h) for (t, h) in f.back_edges()):
                         # the path ends by going round a loop that does not contain the allocation: not the end of its scope
